@@ -37,6 +37,19 @@ pub struct VolCfg {
     /// non-zero: the device makes short transfers (seed of the size sequence); see dev::DevInner::short_io
     #[serde(default)]
     pub short_io: u8,
+    /// Some: before the history starts the volume is populated by imggen (foreign layout: fragmented and backwards
+    /// chains, deleted slots, short-name-only entries with case flags, labels, attributes ...); the reference model
+    /// starts from the builder's ground truth
+    #[serde(default)]
+    pub populate: Option<Populate>,
+}
+
+#[derive(Clone, Debug, Serialize, Deserialize, PartialEq, Eq, Hash)]
+pub struct Populate {
+    pub entropy: Vec<u32>,
+    /// bits of imggen::Freedoms::for_histories
+    pub freedoms: u16,
+    pub objects: u8,
 }
 
 #[derive(Clone, Debug, Serialize, Deserialize, PartialEq, Eq, Hash)]
@@ -135,6 +148,7 @@ impl VolCfg {
             gen: None,
             large: None,
             short_io: 0,
+            populate: None,
         }
     }
     /// generated-geometry variants (what the library's formatter cannot produce)
@@ -180,6 +194,7 @@ impl VolCfg {
             gen: Some(GenGeom { rsvd: rsvd as u16, ..Default::default() }),
             large: None,
             short_io: 0,
+            populate: None,
         }
     }
     pub fn cluster_size(&self) -> u32 {
@@ -187,7 +202,7 @@ impl VolCfg {
     }
     fn base_key(&self) -> VolCfg {
         // status byte and access-date option do not affect the cached base
-        VolCfg { status0: 0, access_date: false, short_io: 0, ..self.clone() }
+        VolCfg { status0: 0, access_date: false, short_io: 0, populate: None, ..self.clone() }
     }
 }
 
@@ -388,4 +403,37 @@ pub fn self_test() -> Result<(), String> {
         }
     }
     Ok(())
+}
+
+
+/// the device of `cfg` with its foreign population applied (if any) and the builder's ground truth
+pub fn make_populated(cfg: &VolCfg) -> Result<(MemDev, Option<imggen::Truth>), String> {
+    let dev = make_device(cfg)?;
+    let Some(p) = &cfg.populate else { return Ok((dev, None)) };
+    let mut st = dev.take_store();
+    match imggen::populate(&mut st, &p.entropy, &imggen::Freedoms::for_histories(p.freedoms), 2 + (p.objects % 14) as usize) {
+        Ok(t) => {
+            dev.with(|d| d.store = st);
+            Ok((dev, Some(t)))
+        }
+        // the builder gave up half way (no room ...): start from the unpopulated volume
+        Err(_) => Ok((make_device(cfg)?, None)),
+    }
+}
+
+/// paths (files and directories) of the population, for generators that want to act on what is there
+pub fn populated_paths(cfg: &VolCfg) -> Vec<String> {
+    fn walk(v: &[crate::tree::TNode], prefix: &str, out: &mut Vec<String>) {
+        for n in v {
+            let p = if prefix.is_empty() { n.name_string() } else { format!("{}/{}", prefix, n.name_string()) };
+            out.push(p.clone());
+            walk(&n.children, &p, out);
+        }
+    }
+    let mut out = Vec::new();
+    if let Ok((dev, Some(t))) = make_populated(cfg) {
+        walk(&t.root, "", &mut out);
+        let _ = dev.take_store();
+    }
+    out
 }
